@@ -235,6 +235,64 @@ theorem outlet_succeeds (zn : Zone α) (m : Mask) (dO : Particle α) (s : State 
   simp only [ho]
   exact ⟨_, rfl⟩
 
+/-- sharp form of **deleted at the far end**: when the outlet array is aligned
+on entry (its real-particle view is its Local particles) and no arriving copy
+carries zone id 2, the deleted particles are exactly the old Local outlet
+particles beyond the far end — the arrivals of this very call are never
+deleted, and no other outlet particle is. -/
+theorem outlet_deletes_exactly_far_local (zn : Zone α) (m : Mask) (dO : Particle α) (s : State α)
+    (hal : (realView (outletEval zn s)).Perm ((outletEval zn s).filter isLocal))
+    (hnew : ∀ p ∈ leaving zn s, ioidIs 2 (copyInto m dO p) = false) :
+    (deleted zn m dO s).Perm
+      ((outletEval zn s).filter (fun p => ioidIs 2 p && isLocal p)) := by
+  unfold deleted outletMid extractInto
+  split
+  · have := List.Perm.filter (ioidIs 2) hal
+    rw [List.filter_filter] at this
+    exact this
+  · rw [gather_where_realView]
+    have h1 := List.Perm.filter (ioidIs 2)
+      (realView_align_perm (outletEval zn s ++
+        ((realView (fluidEval zn s)).filter (ioidIs 1)).map (copyInto m dO)))
+    rw [List.filter_filter, List.filter_append] at h1
+    have h2 : (((realView (fluidEval zn s)).filter (ioidIs 1)).map (copyInto m dO)).filter
+        (fun p => ioidIs 2 p && isLocal p) = [] := by
+      apply List.filter_eq_nil_iff.mpr
+      intro q hq
+      obtain ⟨p, hp, rfl⟩ := List.mem_map.mp hq
+      simp [hnew p hp]
+    rw [h2, List.append_nil] at h1
+    exact h1
+
+/-- with `ioid` among `props_to_copy` the arrivals carry zone id 1, so the
+side condition of `outlet_deletes_exactly_far_local` holds -/
+theorem arrivals_not_far_when_ioid_copied (zn : Zone α) (m : Mask) (dO : Particle α) (s : State α)
+    (hm : m.ioid = true) : ∀ p ∈ leaving zn s, ioidIs 2 (copyInto m dO p) = false := by
+  intro p hp
+  have h1 : p.ioid = 1 := by
+    have := (List.mem_filter.mp hp).2
+    simpa [ioidIs] using this
+  simp [ioidIs, copyInto, hm, h1]
+
+/-! ### stated, not proved within budget -/
+
+/-- FULL STATEMENT, not proved: the mirror family's ghost array stays
+index-aligned with the outlet array (same length, slot `i` of the ghost is the
+image of slot `i` of the outlet) through `mirrorOutletBody`, given it is aligned
+on entry, every particle is Local and `x y z u` are copied.  The length half is
+exercised on the real code by the harness (`C16:outlet:mirror:ghost-count`,
+`…:ghost-aligned`); the proof needs `removeRows` applied with one index list
+to two lists to commute with `zip`, which was not done. -/
+def mirror_ghost_stays_aligned (α : Type) [Add α] [Sub α] [Mul α] [Neg α] [LT α]
+    [DecidableLT α] [OfNat α 1] [OfNat α 2] : Prop :=
+  ∀ (zn : Zone α) (m : Mask) (dO dG : Particle α) (s s' : State α) (g g' : List (Particle α)),
+    s.ghostOut = some g → g.length = s.outlet.length →
+    (∀ p ∈ s.fluid ++ s.outlet ++ g, isLocal p = true) →
+    m.x = true → m.y = true → m.z = true → m.u = true → m.lbl = true →
+    List.map (·.lbl) g = List.map (·.lbl) s.outlet →
+    mirrorOutletBody zn m dO dG s = some s' → s'.ghostOut = some g' →
+    List.map (·.lbl) g' = List.map (·.lbl) s'.outlet
+
 /-! ## mirror `Outlet.update` -/
 
 /-- what the mirror outlet appends to the outlet array -/
@@ -579,7 +637,7 @@ def exCfg : Cfg Rat := ⟨exZin, exZout, exP 0 0, exP 0 0, exP 0 0, Mask.all, 1/
 def exState : State Rat :=
   { inlet := [exP (-3/8) 1, exP (1/8) 2, exP (1/4) 3, exP (1/16) 4 2],
     ghostIn := some [exP (3/8) 1, exP (-1/8) 2, exP (-1/4) 3, exP (-1/16) 4],
-    fluid := [exP (1/2) 11, exP (9/8) 12, exP (5/4) 13 2, exP (3/4) 14],
+    fluid := [exP (1/2) 11, exP (9/8) 12, exP (3/4) 14, exP (5/4) 13 2],
     outlet := [exP (5/4) 21, exP (13/8) 22], ghostOut := none, urefIn := 1, urefFluid := 0 }
 
 /-- two Local inlet particles cross together (the ghost-tagged one does not
@@ -606,7 +664,7 @@ example : (run exCfg [.inlet true, .outlet true, .move ⟨fun _ p => p, fun _ p 
         fun _ p => { p with x := p.x + 1/2 }, fun _ p => p, fun _ p => p⟩,
         .outlet false, .mirrorOutlet true, .hybridInlet true] (exState, ⟨0, 0⟩)).map
       (fun sa => (sa.1.fluid.length, sa.2.entered, sa.2.left))
-    = some (4, 4, 4) := by
+    = some (4, 2, 2) := by
   decide +kernel
 
 /-- overshoot: moved more than a zone length, still outside after recycling -/
